@@ -88,6 +88,12 @@ def make_jobs(check, rnd):
                  "profile": "corpus-first-datagram-corrupt"})
     jobs.append({"cfg": {}, "script": [["corrupt", 0, 700], ["drop", 0], ["blackout"]], "seed": 5, "hs_adv": True,
                  "profile": "corpus-first-datagram-corrupt-blackout"})
+    # the first datagram a server sees is cut short (dropped before the server initialises anything), then nothing / the rest
+    for n in (1, 25, 600, 1199):
+        jobs.append({"cfg": {"idle": 5.0}, "script": [["truncate", 0, n], ["drop", 0], ["blackout"]], "seed": 5, "hs_adv": True,
+                     "profile": "corpus-first-datagram-cut-blackout"})
+        jobs.append({"cfg": {}, "script": [["truncate", 0, n], ["deliver", 0], ["write", "c", 0, 100, True]], "seed": 5, "hs_adv": True,
+                     "profile": "corpus-first-datagram-cut"})
     for ep in "cs":
         jobs.append({"cfg": {}, "script": [["write", ep, 0 if ep == "c" else 3, 3000, False], ["drop", 0], ["drop", 0], ["drop", 0],
                                            ["timer", ep], ["drop", 0], ["timer", ep], ["drop", 0], ["timer", ep], ["drop", 0],
